@@ -143,7 +143,9 @@ def run_program(loopname, prog, choices, second_run=False):
                 state["armed"] = False  # the callbacks that raised stay registered: they must not raise again in the second run
                 bodies["end2"] = "exit"
                 DUE["end2"] = None
+                DUE["mid2"] = None
                 try:
+                    evl.alarm(0.25, make("mid2"))
                     evl.alarm(0.5, make("end2"))
                     evl.run()
                     res2 = "ok"
@@ -259,6 +261,24 @@ def accept(loopname, prog, events, res, res2):
         return out
     if res2 is not None and res2 != "ok":
         out.append(("raise-once", "second-run", f"after Boom left run() once, a second run() ended with {res2!r}"))
+    if res2 == "ok" and ("second-run",) in events:
+        # the second run is a run like any other: after its alarm callback the idle callbacks still registered run before the loop sleeps again
+        seg = events[events.index(("second-run",)):]
+        names = [e[1] for e in seg if e[0] == "cb"]
+        if "mid2" in names:
+            after = names[names.index("mid2") + 1:]
+            # which idle callbacks are registered when mid2 runs (removals and additions of both runs, in order)
+            live2 = {"i1": True, "i2": True} if variant == "full" else {}
+            for e in events:
+                if e[0] == "add_idle":
+                    live2[e[1]] = True
+                elif e[0] == "rm_idle" and e[2] is True:
+                    live2[e[1]] = False
+                elif e[0] == "cb" and e[1] == "mid2":
+                    break
+            for iname, live in live2.items():
+                if live and iname not in after:
+                    out.append(("idle-after-callback", "second-run", f"second run(): idle callback {iname} did not run after the alarm callback mid2 (callbacks of the second run: {names})"))
     if first_raise is not None and first_raise[1] != "end":
         return out  # the loop was stopped early: liveness clauses do not apply
     # ---- liveness (the loop ran until the sentinel alarm)
@@ -568,7 +588,7 @@ ALARM_NMAX = {"quick": {"select": 7, "zmq": 7, "asyncio": 5, "tornado": 4, "twis
               "thorough": {"select": 8, "zmq": 8, "asyncio": 7, "tornado": 6, "twisted": 7, "trio": 5}}
 
 
-SECOND_RUN = {"select": True, "asyncio": True, "zmq": True, "tornado": False, "twisted": False, "trio": False}
+SECOND_RUN = {"select": True, "asyncio": True, "zmq": True, "tornado": True, "twisted": False, "trio": False}
 
 
 def run(tier, R):
@@ -618,7 +638,7 @@ def run(tier, R):
             "idle slack 12 ms of virtual time (covers twisted's 1/256 s idle emulation); trio time tolerance 1 ms (its mock clock autojumps); every other loop, tornado included, runs on the exact virtual clock",
             "after a callback raised, only the way run() ends is judged; liveness clauses are judged on executions that reach the sentinel alarm; when several callbacks "
             "raised before the loop stopped, run() may raise Boom if any of them raised it, and may end silently only if the first one raised ExitMainLoop",
-            "raise-once is also checked with a second run() on select, asyncio and zmq (the other reactors cannot be restarted by this harness)",
+            "after Boom left run(), a second run() is performed on select, asyncio, zmq and tornado (twisted and trio cannot be restarted by this harness): it must not raise again, and the idle callbacks still registered must run after its alarm callback",
         ],
     }
 
